@@ -457,8 +457,22 @@ func (a *Analyzer) branch(st *State, cond Term) (*State, *State) {
 		return ts, fs
 	}
 	// unknown bool: remember the decision so that the same bool is consistent later
+	if prev, ok := st.BoolFacts[b.ID]; ok {
+		if prev {
+			return st, nil
+		}
+		return nil, st
+	}
 	ts := st.Clone()
 	fs := st
+	if ts.BoolFacts == nil {
+		ts.BoolFacts = map[int]bool{}
+	}
+	if fs.BoolFacts == nil {
+		fs.BoolFacts = map[int]bool{}
+	}
+	ts.BoolFacts[b.ID] = true
+	fs.BoolFacts[b.ID] = false
 	return ts, fs
 }
 
